@@ -103,9 +103,12 @@ fn history(ctx: &mut Ctx, c: &Case, p: &mut Prng) {
         ctx.class(&format!("kind={:?}", c.kind));
     }
     ctx.distinct("hist", &[&r2::b32(&c.da), &r2::b32(&c.db), c.ida.as_bytes(), c.idb.as_bytes(), &(c.klen as u32).to_be_bytes(), &r2::b32(&c.ra), &r2::b32(&c.rb), &[c.subset, c.kind as u8]]);
-    let mk = |own: &gm_sm2::key::Sm2PrivateKey, own_id: &str, peer: &gm_sm2::key::Sm2PrivateKey, peer_id: &str| guard(|| Exchange::new(c.klen, Some(own_id), &own.public_key, own, Some(peer_id), &peer.public_key));
+    // an identity equal to the default ID is passed as `None` (the API's way of saying "default ID")
+    let opt = |s: &'static str| if s == "1234567812345678" { None } else { Some(s) };
+    let (ida_s, idb_s): (&'static str, &'static str) = (leak(c.ida.clone()), leak(c.idb.clone()));
+    let mk = |own: &gm_sm2::key::Sm2PrivateKey, own_id: &'static str, peer: &gm_sm2::key::Sm2PrivateKey, peer_id: &'static str| guard(|| Exchange::new(c.klen, opt(own_id), &own.public_key, own, opt(peer_id), &peer.public_key));
     ctx.eval();
-    let (mut a, mut b) = match (mk(&ska, &c.ida, &skb, &c.idb), mk(&skb, &c.idb, &ska, &c.ida)) {
+    let (mut a, mut b) = match (mk(&ska, ida_s, &skb, idb_s), mk(&skb, idb_s, &ska, ida_s)) {
         (Outcome::Ret(Ok(a)), Outcome::Ret(Ok(b))) => (a, b),
         _ => {
             ctx.violation("Exchange::new:valid-keys:not-ok", wit(c));
@@ -314,7 +317,7 @@ pub fn run(ctx: &mut Ctx) {
     for (n, ok) in r2::selftest() {
         ctx.selftest(&n, ok);
     }
-    ctx.require(&["annex_kat", "honest_keys_equal", "step2_rejects_invalid_RA", "step3_rejects", "step4_rejects", "klen=1", "klen=16", "klen=200", "kind=OffCurve", "kind=Negated", "kind=OtherPoint", "kind=BitFlipHash", "kind=PermutedHash", "kind=ConstantHash", "klen_needs_more_than_255_kdf_blocks", "honest_R_rerandomised_representation", "id_non_ascii_utf8", "key_from_gen_keypair", "key_with_jacobian_public_point", "degenerate_dA_shared_point_infinity_at_B", "degenerate_dB_shared_point_infinity_at_A", "coincident_dA_P_eq_xbarR_doubling_at_B", "coincident_dB_P_eq_xbarR_doubling_at_A", "crafted_valid_R_A", "derived_key_all_zero", "same_static_key_both_parties", "same_id_both_parties", "many_calls_one_process", "id_length_sweep", "shared_point_coordinate_leading_zero"]);
+    ctx.require(&["annex_kat", "honest_keys_equal", "step2_rejects_invalid_RA", "step3_rejects", "step4_rejects", "klen=1", "klen=16", "klen=200", "kind=OffCurve", "kind=Negated", "kind=OtherPoint", "kind=BitFlipHash", "kind=PermutedHash", "kind=ConstantHash", "klen_needs_more_than_255_kdf_blocks", "honest_R_rerandomised_representation", "id_non_ascii_utf8", "key_from_gen_keypair", "key_with_jacobian_public_point", "degenerate_dA_shared_point_infinity_at_B", "degenerate_dB_shared_point_infinity_at_A", "coincident_dA_P_eq_xbarR_doubling_at_B", "coincident_dB_P_eq_xbarR_doubling_at_A", "crafted_valid_R_A", "derived_key_all_zero", "same_static_key_both_parties", "same_id_both_parties", "many_calls_one_process", "id_length_sweep", "shared_point_coordinate_leading_zero", "one_party_default_id_as_None"]);
     for s in 0..16 {
         ctx.required.push(format!("subset={:04b}", s));
     }
@@ -535,6 +538,15 @@ pub fn run(ctx: &mut Ctx) {
         if i % 50 == 29 || i % 50 == 41 {
             case.idb = case.ida.clone();
             ctx.class("same_id_both_parties");
+        }
+        // exactly one party (or both) uses the default ID, handed to the API as `None`
+        if i % 50 == 17 || i % 50 == 47 {
+            case.ida = "1234567812345678".into();
+            ctx.class("one_party_default_id_as_None");
+        }
+        if i % 50 == 33 || i % 50 == 47 {
+            case.idb = "1234567812345678".into();
+            ctx.class("one_party_default_id_as_None");
         }
         // degenerate static keys: d = -xbar(R) r mod n makes P + [xbar]R = O, so the peer's shared point is the
         // point at infinity and that peer must report failure (B at step 2 for A's key, A at step 3 for B's key)
